@@ -8,6 +8,7 @@ import PhpVerif.Spec.Precedence
 import PhpVerif.Model.Pratt
 import PhpVerif.Model.Render
 import PhpVerif.Props.C15
+import PhpVerif.Gen.FmtCode
 import PhpVerif.Gen.Tables7
 import PhpVerif.Gen.Tables5
 import PhpVerif.Gen.Terms7
@@ -126,73 +127,115 @@ def pHexes : Nat → List String → Option (List Bytes × List String)
       pure (b :: bs, r')
   | _, [] => none
 
-def pTok : List String → Option (Tok × List String)
+/-- with ids: every hex word is preceded by the decimal token id -/
+def pIdHexes : Nat → List String → Option (List FF × List String)
+  | 0, r => some ([], r)
+  | n + 1, i :: w :: r => do
+      let i ← i.toNat?
+      let b ← pHex w
+      let (bs, r') ← pIdHexes n r
+      pure ({ id := i, val := b } :: bs, r')
+  | _, _ => none
+
+def pTok (ids : Bool) : List String → Option (Tok × List String)
   | n :: r => do
       let n ← n.toNat?
-      let (ffs, r1) ← pHexes n r
-      match r1 with
-      | v :: r2 => do
-          let v ← pHex v
-          pure ({ uid := 0, id := 0, val := v, ff := ffs.map (fun b => { id := 0, val := b }) }, r2)
-      | [] => none
+      if ids then
+        let (ffs, r1) ← pIdHexes n r
+        match r1 with
+        | i :: v :: r2 => do
+            let i ← i.toNat?
+            let v ← pHex v
+            pure ({ uid := 0, id := i, val := v, ff := ffs }, r2)
+        | _ => none
+      else
+        let (ffs, r1) ← pHexes n r
+        match r1 with
+        | v :: r2 => do
+            let v ← pHex v
+            pure ({ uid := 0, id := 0, val := v, ff := ffs.map (fun b => { id := 0, val := b }) }, r2)
+        | [] => none
   | [] => none
 
-def pToks : Nat → List String → Option (List Tok × List String)
+def pToks (ids : Bool) : Nat → List String → Option (List Tok × List String)
   | 0, r => some ([], r)
   | n + 1, r => do
-      let (t, r1) ← pTok r
-      let (ts, r2) ← pToks n r1
+      let (t, r1) ← pTok ids r
+      let (ts, r2) ← pToks ids n r1
       pure (t :: ts, r2)
 
 mutual
-partial def pTree : List String → Option (Tree × List String)
+partial def pTree (ids : Bool) : List String → Option (Tree × List String)
   | "N" :: k :: nf :: r => do
       let k ← k.toNat?
       let nf ← nf.toNat?
-      let (fs, r1) ← pFields nf {} r
+      let (fs, r1) ← pFields ids nf {} r
       pure (.mk k 0 none fs.toks fs.vals fs.kids fs.nn, r1)
   | _ => none
-partial def pFields : Nat → Fields → List String → Option (Fields × List String)
+partial def pFields (ids : Bool) : Nat → Fields → List String → Option (Fields × List String)
   | 0, acc, r => some (acc, r)
   | n + 1, acc, w :: r =>
       match w with
-      | "_" => pFields n (acc.push [] none [] false) r
-      | "t0" => pFields n (acc.push [] none [] false) r
+      | "_" => pFields ids n (acc.push [] none [] false) r
+      | "t0" => pFields ids n (acc.push [] none [] false) r
       | "t1" => do
-          let (t, r1) ← pTok r
-          pFields n (acc.push [t] none [] false) r1
+          let (t, r1) ← pTok ids r
+          pFields ids n (acc.push [t] none [] false) r1
       | "T" => match r with
           | c :: r0 => do
               let c ← c.toNat?
-              let (ts, r1) ← pToks c r0
-              pFields n (acc.push ts none [] false) r1
+              let (ts, r1) ← pToks ids c r0
+              pFields ids n (acc.push ts none [] false) r1
           | [] => none
-      | "v0" => pFields n (acc.push [] none [] false) r
+      | "v0" => pFields ids n (acc.push [] none [] false) r
       | "v1" => match r with
           | h :: r0 => do
               let b ← pHex h
-              pFields n (acc.push [] (some b) [] false) r0
+              pFields ids n (acc.push [] (some b) [] false) r0
           | [] => none
-      | "k0" => pFields n (acc.push [] none [] false) r
+      | "k0" => pFields ids n (acc.push [] none [] false) r
       | "k1" => do
-          let (t, r1) ← pTree r
-          pFields n (acc.push [] none [t] true) r1
-      | "l0" => pFields n (acc.push [] none [] false) r
+          let (t, r1) ← pTree ids r
+          pFields ids n (acc.push [] none [t] true) r1
+      | "l0" => pFields ids n (acc.push [] none [] false) r
       | "l1" => match r with
           | c :: r0 => do
               let c ← c.toNat?
-              let (ts, r1) ← pTrees c r0
-              pFields n (acc.push [] none ts true) r1
+              let (ts, r1) ← pTrees ids c r0
+              pFields ids n (acc.push [] none ts true) r1
           | [] => none
       | _ => none
   | _, _, [] => none
-partial def pTrees : Nat → List String → Option (List Tree × List String)
+partial def pTrees (ids : Bool) : Nat → List String → Option (List Tree × List String)
   | 0, r => some ([], r)
   | n + 1, r => do
-      let (t, r1) ← pTree r
-      let (ts, r2) ← pTrees n r1
+      let (t, r1) ← pTree ids r
+      let (ts, r2) ← pTrees ids n r1
       pure (t :: ts, r2)
 end
+
+/-! `format <tree with ids>`: the formatter model on a tree, answered as a dump of every token of the
+  formatted tree followed by the bytes the printer model makes of it; `panic` where Go panics. -/
+def fmtProgArr : Array (List Fmt.FI) := Gen.fmtProgs.toArray
+def fmtCfg : Fmt.FCfg :=
+  { prog := fun k => fmtProgArr.getD k [], htmlKind := Gen.fmtHtmlKind, nopKind := Gen.fmtNopKind,
+    nopFields := Gen.fmtNopFields, nopSemi := Gen.fmtNopSemi, tWs := Gen.fmtTWs, tOpenTag := Gen.fmtTOpenTag }
+
+def hexOr (b : Bytes) : String := if b.isEmpty then "-" else toHex b
+
+def dumpTok (t : Tok) : String :=
+  "[" ++ toString t.id ++ ":" ++ hexOr t.val ++ "|" ++ String.join (t.ff.map (fun f => "<" ++ toString f.id ++ ":" ++ hexOr f.val ++ ">")) ++ "]"
+
+partial def dumpTree : Tree → String
+  | .mk k _ _ toks _ kids _ =>
+    let n := max toks.length kids.length
+    let fields := (List.range n).filterMap (fun i =>
+      let ts := fieldAt toks i
+      let ks := fieldAt kids i
+      if !ts.isEmpty then some (toString i ++ "t" ++ String.join (ts.map dumpTok))
+      else if !ks.isEmpty then some (toString i ++ "k" ++ String.join (ks.map dumpTree))
+      else none)
+    "N" ++ toString k ++ "(" ++ ";".intercalate fields ++ ")"
 
 def litBytes (id : Nat) : Bytes :=
   match Gen.printerLits.find? (·.1 == id) with
@@ -405,8 +448,15 @@ def handle (ws : List String) : String :=
     match m.toNat? with
     | some m => natsStr (NL.lineStarts (unhex h) m)
     | none => "bad-op"
+  | ["format", enc] =>
+    match pTree true (enc.splitOn ",") with
+    | some (t, []) =>
+      (match Fmt.format fmtCfg t with
+       | some t' => dumpTree t' ++ " x" ++ hexOr (render litBytes (chunks C15.realCfg false t'))
+       | none => "panic")
+    | _ => "bad-op"
   | ["print", enc] =>
-    match pTree (enc.splitOn ",") with
+    match pTree false (enc.splitOn ",") with
     | some (t, []) => "x" ++ toHex (render litBytes (chunks C15.realCfg false t))
     | _ => "bad-op"
   | ["pparse", "7", f, h] => runPipeline Gen.tables7 pathTable7 (f == "1") (unhex h)
